@@ -164,6 +164,10 @@ impl RsdpV2Tag {
     /// Validation of the RSDPv2 extended checksum
     #[must_use]
     pub fn checksum_is_valid(&self) -> bool {
+        // The RSDP as described by `length` must lie inside this tag.
+        if self.length as usize > Self::BASE_SIZE - 8 {
+            return false;
+        }
         let bytes = unsafe {
             slice::from_raw_parts(self as *const _ as *const u8, self.length as usize + 8)
         };
